@@ -331,6 +331,8 @@ func runJob3(j job) string {
 		return fileBoth(j.data)
 	case "T3":
 		return leafBoth(j.data)
+	case "V3":
+		return entBoth(j.data)
 	case "E3":
 		var r string
 		mode := mp4.EncFragFileMode(j.cfg[3] - '0')
@@ -404,9 +406,15 @@ func cmdCorr3(seed uint64, n int, exh int) {
 		jobs = append(jobs, job{kind: "T3", cfg: "-", data: d})
 		metas = append(metas, "T\t"+hx.Hex(d))
 	}
+	for _, d := range genV3Inputs(r, n) {
+		jobs = append(jobs, job{kind: "V3", cfg: "-", data: d})
+		metas = append(metas, "V\t"+hx.Hex(d))
+	}
 	res := runJobs(jobs, nprocs())
 	for i, m := range metas {
-		if m[0] == 'T' {
+		if m[0] == 'V' {
+			fmt.Fprintf(out, "V\tv%d\t%s\t%s\n", i, m[2:], res[i])
+		} else if m[0] == 'T' {
 			fmt.Fprintf(out, "T\tt%d\t%s\t%s\n", i, m[2:], res[i])
 		} else if m[0] == 'B' {
 			fmt.Fprintf(out, "B\tb%d\t%s\t%s\n", i, m[2:], projectB(res[i]))
@@ -474,6 +482,10 @@ func cmdSearch3(seed uint64, n int) {
 	for _, d := range genT3Inputs(r, n/40) {
 		jobs = append(jobs, job{kind: "X3", cfg: "-", data: d})
 		descs = append(descs, "leafpair:"+hx.Hex(d))
+	}
+	for _, d := range genV3Inputs(r, n/40) {
+		jobs = append(jobs, job{kind: "X3", cfg: "-", data: d})
+		descs = append(descs, "entrypair:"+hx.Hex(d))
 	}
 	seen := map[string]bool{}
 	perBox := n / 300
